@@ -38,7 +38,8 @@ STAGES = ["separate_terminals", "binarize", "separate_start", "push_null", "trim
           "unarycycleremove", "unarycycleremove_full", "ucycle_pred"]
 UCYCLE = ("unarycycleremove", "unarycycleremove_full", "ucycle_pred", "tarjan")
 PUBLIC = ["trim", "cotrim", "binarize", "separate_start", "separate_terminals", "nullaryremove", "nullaryremove_nb",
-          "nullaryremove_nt", "unaryremove", "unarycycleremove", "unarycycleremove_nt", "cnf", "rename", "rename0", "renumber", "unfold"]
+          "nullaryremove_nt", "unaryremove", "unarycycleremove", "unarycycleremove_nt", "cnf", "rename", "rename0", "renumber", "unfold", "unfold_unaryremove", "unfold_unarycycleremove", "unfold_trim",
+          "rename_unaryremove", "nullaryremove_unfold0", "separate_start_nullaryremove", "binarize_unarycycleremove"]
 
 
 def _enc_chart1(ch, R):
@@ -211,6 +212,14 @@ def impl(case):
         public("rename0", rename0)
     for (i, k) in case.get("unfold", [])[:1]:
         public("unfold", lambda: mk().unfold(i, k))
+        # the OUTPUT of one transformation fed into another one (data only the library itself produces)
+        public("unfold_unaryremove", lambda: mk().unfold(i, k).unaryremove())
+        public("unfold_unarycycleremove", lambda: mk().unfold(i, k).unarycycleremove())
+        public("unfold_trim", lambda: mk().unfold(i, k).trim())
+    public("rename_unaryremove", lambda: mk().rename(lambda x: ("r", x)).unaryremove())
+    public("nullaryremove_unfold0", lambda: (lambda h: h.unfold(0, 0) if len(h.rules) and len(h.rules[0].body) and not h.is_terminal(h.rules[0].body[0]) else h)(mk().nullaryremove()))
+    public("separate_start_nullaryremove", lambda: mk().separate_start().nullaryremove())
+    public("binarize_unarycycleremove", lambda: mk().binarize().unarycycleremove())
     # purity: the input grammar object is unchanged by all of the above (C05 reports it too)
     g3 = mk()
     for f in (lambda: g3.trim(), lambda: g3.cnf, lambda: g3.nullaryremove(), lambda: g3.unaryremove(), lambda: g3.binarize(),
@@ -232,6 +241,9 @@ def impl(case):
             m = t.map_values(lambda w: zero if repr(w) == victim else w, t.R)
             shape_only["trim_mapvalues_trim"] = common.enc_cfg(m.trim(), R)
             shape_only["trim_mapvalues_cotrim_trim"] = common.enc_cfg(t.cotrim().map_values(lambda w: zero if repr(w) == victim else w, t.R).cotrim().trim(), R)
+        # cotrim (or the bottom-up-only trim) first, then the full trim, on ONE object
+        g5 = mk(); g5.cotrim(); shape_only["cotrim_then_trim"] = common.enc_cfg(g5.trim(), R)
+        g6 = mk(); g6.trim(bottomup_only=True); shape_only["buonly_then_trim"] = common.enc_cfg(g6.trim(), R)
     except Exception as e:  # noqa
         shape_only["trim_mapvalues_trim"] = {"exc": type(e).__name__, "msg": str(e)[:200]}
     return {"steps": steps, "public": outs, "pure": pure, "shape_only": shape_only}
@@ -418,6 +430,8 @@ SHAPE_EXPECT = {
     "separate_terminals": ["terminals_separated"],
     "trim": ["trim_useful"],
     "trim_mapvalues_trim": ["trim_useful"],
+    "cotrim_then_trim": ["trim_useful"],
+    "buonly_then_trim": ["trim_useful"],
     "trim_mapvalues_cotrim_trim": ["trim_useful"],
 }
 
@@ -477,7 +491,7 @@ def run_common(ctx, which):
             if "exc" in out:
                 semantic.append(_viol(which, c, name, None, out))
                 continue
-            shape_ops.append({"op": "shape", "R": c["R"], "cfg": out, "orig": out})
+            shape_ops.append({"op": "shape", "R": c["R"], "cfg": out, "orig": c["cfg"] if name in ("cotrim_then_trim", "buonly_then_trim") else out})
             shape_index.append((c, name, out))
         allsteps = [(hashseeds[0], st) for st in res0["steps"]]
         # the unary-cycle steps depend on set iteration order (order of the blocks, of the nodes in a block): every hash seed
@@ -534,7 +548,7 @@ def run_common(ctx, which):
                     semantic.append(_viol(which, c, name, None, {"postcondition": pred, "output": out, "details": r}))
                 else:
                     traces += 1
-            if name == "trim" and not r.get("orig_start_generating", True):
+            if name in ("trim", "cotrim_then_trim", "buonly_then_trim") and not r.get("orig_start_generating", True):
                 evaluations += 1
                 if out["rules"]:
                     semantic.append(_viol(which, c, name, None, {"postcondition": "empty language trims to the empty rule set", "output": out}))
